@@ -31,7 +31,8 @@ def sanitize_python_code(expr: str) -> str:
     expr = format_expr(
         sanitize_variable_names(expr, {}, aliases, template="_formulaic_{}")
     )
-    while aliases:
-        alias, orig = aliases.popitem()
-        expr = expr.replace(alias, f"`{orig}`")
+    # Longest aliases first, so that an alias which is a prefix of another
+    # cannot clobber it.
+    for alias in sorted(aliases, key=len, reverse=True):
+        expr = expr.replace(alias, f"`{aliases[alias]}`")
     return expr
